@@ -56,6 +56,8 @@ type Person struct {
 	Boss  *string
 	Team  *string
 	Teams []string
+	// Labels, when set, is written as a nested map below the sub-bucket "meta" (a map symbol with a path prefix)
+	Labels map[string]interface{}
 }
 
 func (e *Person) GetEntityType() string { return TypePeople }
@@ -92,6 +94,9 @@ func (s personStrategy) FillEntity(e *Person, b *boltz.TypedBucket) {
 func (s personStrategy) PersistEntity(e *Person, ctx *boltz.PersistContext) {
 	e.SetBaseValues(ctx)
 	ctx.SetRequiredString(FName, e.Name) // (the usual way to write a name field)
+	if e.Labels != nil {
+		ctx.Bucket.GetOrCreatePath("meta").PutMap("labels", e.Labels, ctx.FieldChecker, true)
+	}
 	ctx.SetStringP(FNick, e.Nick)
 	ctx.SetStringList(FRoles, e.Roles)
 	ctx.SetStringP(FBoss, e.Boss)
@@ -335,6 +340,10 @@ func New(cfg Config) *Stores {
 	if !cfg.SysOnChild {
 		people.AddConstraint(boltz.NewSystemEntityEnforcementConstraint(people))
 	}
+	// a map symbol below a path prefix; the prefix slice has room to grow (element symbols must not share it)
+	labelsPrefix := make([]string, 1, 8)
+	labelsPrefix[0] = "meta"
+	people.AddMapSymbol("labels", ast.NodeTypeAnyType, "labels", labelsPrefix...)
 	// symbols computed by the application (not stored): the first id in id order / the id once more
 	people.AddEntitySymbol(boltz.NewBoolFuncSymbol(people, "isFirst", func(id string) bool { return id == "p1" }))
 	people.AddEntitySymbol(boltz.NewStringFuncSymbol(people, "idAgain", func(id string) *string { return &id }))
